@@ -167,7 +167,9 @@ impl Check for CrossCheck {
         let mut run = gen_sess_run(self.id, seed, tier, false);
         let mut f = Rng::stream(seed, "schedule");
         if self.id == "C12" {
-            run.set("naming", 0);
+            // the naming drawn by gen_sess_run (3 runs in 10: one of the ten non-default kinds) is kept: all
+            // schedules of a run use it, and with the lazy kinds (8, 10) the order of the steps decides which
+            // slot is spelled when
             run.set("schedules", 3);
             run.set("schedule_seed", (f.next() >> 1) as i64);
         } else {
